@@ -18,6 +18,7 @@ type FakeStream[T any] struct {
 	Sent   []*T
 	// behaviour
 	FailAt     int           // fail the Send with this 0-based index (-1 = never)
+	FailFrom   int           // every Send from this index on fails (a broken stream stays broken; -1 = never)
 	FailCancel bool          // the failing Send also cancels the stream context (as gRPC does on a broken stream)
 	CancelAt   int           // cancel the context when this many messages were sent (-1 = never)
 	Delay      time.Duration // every Send blocks this long (slow consumer)
@@ -27,7 +28,7 @@ type FakeStream[T any] struct {
 
 func NewFakeStream[T any](parent context.Context) *FakeStream[T] {
 	ctx, cancel := context.WithCancel(parent)
-	return &FakeStream[T]{Ctx: ctx, Cancel: cancel, FailAt: -1, CancelAt: -1, StallAt: -1}
+	return &FakeStream[T]{Ctx: ctx, Cancel: cancel, FailAt: -1, FailFrom: -1, CancelAt: -1, StallAt: -1}
 }
 
 var ErrStreamInjected = fmt.Errorf("verif: injected stream send failure")
@@ -50,7 +51,7 @@ func (s *FakeStream[T]) Send(m *T) error {
 			return s.Ctx.Err()
 		}
 	}
-	if s.FailAt == i {
+	if s.FailAt == i || (s.FailFrom >= 0 && i >= s.FailFrom) {
 		if s.FailCancel {
 			s.Cancel()
 		}
